@@ -149,12 +149,39 @@ class Flow:
                 return [m[0] + (m[1],)]
             return [("unknown",)]
         if k == "cond":
+            tr = self.truth(t.get("c"), env, meta)
+            if tr is True:
+                return self.describe(t.get("t"), env, meta)
+            if tr is False:
+                return self.describe(t.get("f"), env, meta)
             return self.describe(t.get("t"), env, meta) + self.describe(t.get("f"), env, meta)
         if k == "call" and not t.get("virt"):
             tg = [x for x in self.F.targets(t)]
             if len(tg) == 1:
                 return [("call", (tg[0].key, t.get("i")), frozenset())]
         return [("unknown",)]
+
+    def truth(self, cond, env, meta):
+        """True / False / None: the condition under the values *and exclusions* known on this path (the CFG has
+        already branched on a `?:` condition when its value is consumed in the join block)"""
+        v = evalcfg.ev(cond, env)
+        if v is not None:
+            return bool(v)
+        from .cfgutil import _strip_not
+        tree, pos = _strip_not(cond, True)
+        t = _strip(tree)
+        if isinstance(t, dict) and t.get("k") == "bin" and t.get("op") in ("==", "!="):
+            for side, other in ((t.get("l"), t.get("r")), (t.get("r"), t.get("l"))):
+                c = _const(other) if isinstance(other, dict) else None
+                sd = _strip(side)
+                if c is None or not isinstance(sd, dict) or sd.get("k") != "var" or "d" not in sd:
+                    continue
+                m = meta.get(sd["d"])
+                if m and c in m[1]:
+                    eq = False
+                    res = eq if t["op"] == "==" else not eq
+                    return res if pos else not res
+        return None
 
     def _store(self, d, rhs, env, meta):
         v = evalcfg.ev(rhs, env)
